@@ -192,7 +192,7 @@ def run_job(engine, job):
     elif job['cfg']['start'] == 2:
         S, cells = dup_group_file(); files = {'in.c3d': gen.to_engine_cells(cells)}; assume = S.cons
     eng = engine('O1')
-    return std_run(engine, job, lambda sec, job, st: tree_obligations(sec, job, st, eng), 'c09.end', ID, 'tree', files=files, assume=assume, forced_choices=job['forced'], fatal_as='violation')
+    return std_run(engine, job, lambda sec, job, st: tree_obligations(sec, job, st, eng), 'c09.end', ID, 'tree', files=files, assume=assume, forced_choices=job['forced'], fatal_as='violation', wall=200 if job['cfg']['depth'] <= 2 else 560)
 
 def native_confirm(nat, v):
     out, sec = native_sections(nat, v['replay'])
